@@ -57,6 +57,7 @@ def main():
     t0 = time.time()
     mod = importlib.import_module(f"props.{prop.lower()}")
     ctx = Ctx(prop, tier, seed)
+    ctx.replay = json.load(open(args.replay)) if args.replay else None
     obligations = []   # (name, ok, detail)
 
     # 1. translate ------------------------------------------------------------------------
